@@ -1,9 +1,10 @@
 #!/usr/bin/env python3
 """Import behaviour-preserving refactorings written by sub-agents (/tmp/wt4/out/BNN/{a,b,c}) into /verif/benign/agent-BNN-x/."""
 import json, os, shutil
-for b in sorted(os.listdir("/tmp/wt4/out")):
+ROOT = "/tmp/wt8/out" if os.path.isdir("/tmp/wt8/out") else "/tmp/wt4/out"
+for b in sorted(os.listdir(ROOT)):
     for v in "abc":
-        src = f"/tmp/wt4/out/{b}/{v}"
+        src = f"{ROOT}/{b}/{v}"
         dst = f"/verif/benign/agent-{b}-{v}"
         if not os.path.exists(f"{src}/patch.diff") or os.path.isdir(dst):
             continue
